@@ -3,11 +3,12 @@ import AsyncFix.Lemmas.SessionResendStep
 /-!
 C06 helper lemmas, part 5: the replay / gap-fill loop of `_process_resend`.
 
-`resendLoop_spec` is the induction over the recovered rows with the loop state
-(`gap_fill_begin`, `gap_fill_end`, the journal written so far) as invariant: the frames written so far
-form a `Chain` from the initial `gap_fill_begin` to the current one, every journal row is below the
-current `gap_fill_begin` (so the next `persist_msg` cannot collide), and no replayable row of the
-original journal `J` lies between the current `gap_fill_begin` and the next recovered row.
+`resendLoop_spec` is the induction over the recovered rows `rs1 ++ rs2` (`rs1` = rows up to EndSeqNo,
+`rs2` = rows after it) with the loop state (`gap_fill_begin`, `gap_fill_end`, the journal written so far)
+as invariant: the frames written so far form a `Chain` from the initial `gap_fill_begin` to the current
+one, every journal row is below the current `gap_fill_begin` (so the next `persist_msg` cannot collide),
+and no replayable row of the original journal `J` lies between the current `gap_fill_begin` and the next
+recovered row.  `resendLoop_tail`: the rows after EndSeqNo go back into the journal unchanged and unsent.
 -/
 namespace AsyncFix.Session.C06
 open Msg AsyncFix.Generated AsyncFix.Generated.ConnEnum
@@ -90,6 +91,46 @@ theorem rowOK_replayFrame {env : Env} {c : Conn} (h : LoopCtx env c) {n : Int} {
 
 /-! ### an optional gap fill `[a, k)` -/
 
+/-- optional gap fill when the journal is `l1 ++ l2` with `l1` below `a` and `l2` above `k` (the rows
+after EndSeqNo that were put back) -/
+theorem gap_step_mid (env : Env) (sr : Msg → Bool) (J : Rows) (c : Conn) (a k : Int) (l1 l2 : Rows)
+    (hctx : LoopCtx env c) (ha : 0 ≤ a) (hak : a ≤ k) (hout : c.journal.out = l1 ++ l2)
+    (hsorted : Rows.Sorted (l1 ++ l2)) (hlt : Rows.AllLt a l1) (hgt : Rows.AllGt (k - 1) l2)
+    (hno : ∀ n row, a ≤ n → n < k → J.find n = some row → ¬ Replayable sr row) :
+    ∃ (pre : Rows) (os : Int),
+      (if a < k then sendMsg env (gapFillMsg a k) else pure ()) c =
+        ⟨.ok (), withOut c (l1 ++ pre ++ l2) os, pre.map fun p => Effect.write p.2⟩ ∧
+      Chain c.sess J sr a k (pre.map (·.2)) ∧
+      Rows.Sorted (l1 ++ pre ++ l2) ∧ Rows.AllLt k (l1 ++ pre) ∧
+      (∀ p ∈ pre, RowOK p.1 p.2 ∧ a ≤ p.1) := by
+  by_cases h : a < k
+  · have hrow := rowOK_gapFrame hctx a k ha
+    have hgt' : Rows.AllGt a l2 := fun p hp => by have := hgt p hp; omega
+    refine ⟨[(a, buildFrame c.sess env.stamp (gapFillMsg a k) a)], a, ?_, ?_, ?_, ?_, ?_⟩
+    · rw [if_pos h]
+      exact sendMsg_keep_mid env _ c a (pyStr a) l1 l2 hctx.inres (Or.inl rfl) rfl (pyInt_pyStr a ha)
+        hrow.latin hout hlt hgt'
+    · exact Chain.gap h (isGapFill_buildFrame _ _ _ _) hno (Chain.nil k)
+    · refine Rows.sorted_append
+        (Rows.sorted_append_singleton (Rows.sorted_append_left hsorted) hlt)
+        (Rows.sorted_append_right hsorted) ?_
+      intro p hp q hq
+      rcases List.mem_append.mp hp with hp | hp
+      · exact Rows.sorted_append_lt hsorted p hp q hq
+      · simp only [List.mem_singleton] at hp; subst hp; exact hgt' q hq
+    · exact Rows.allLt_append_singleton (Rows.allLt_mono hak hlt) h
+    · intro p hp
+      simp only [List.mem_singleton] at hp
+      subst hp
+      exact ⟨hrow, Int.le_refl _⟩
+  · have hk : k = a := by omega
+    subst hk
+    refine ⟨[], c.journal.outSeq, ?_, Chain.nil _, ?_, ?_, ?_⟩
+    · rw [if_neg h]; simp [withOut, ← hout]
+    · simpa using hsorted
+    · simpa using hlt
+    · intro p hp; simp at hp
+
 theorem gap_step (env : Env) (sr : Msg → Bool) (J : Rows) (c : Conn) (a k : Int)
     (hctx : LoopCtx env c) (ha : 0 ≤ a) (hak : a ≤ k)
     (hsorted : Rows.Sorted c.journal.out) (hlt : Rows.AllLt a c.journal.out)
@@ -100,89 +141,122 @@ theorem gap_step (env : Env) (sr : Msg → Bool) (J : Rows) (c : Conn) (a k : In
       Chain c.sess J sr a k (pre.map (·.2)) ∧
       Rows.Sorted (c.journal.out ++ pre) ∧ Rows.AllLt k (c.journal.out ++ pre) ∧
       (∀ p ∈ pre, RowOK p.1 p.2 ∧ a ≤ p.1) := by
-  by_cases h : a < k
-  · have hrow := rowOK_gapFrame hctx a k ha
-    refine ⟨[(a, buildFrame c.sess env.stamp (gapFillMsg a k) a)], a, ?_, ?_, ?_, ?_, ?_⟩
-    · rw [if_pos h]
-      exact sendMsg_keep env _ c a (pyStr a) hctx.inres (Or.inl rfl) rfl (pyInt_pyStr a ha)
-        hrow.latin hlt
-    · exact Chain.gap h (isGapFill_buildFrame _ _ _ _) hno (Chain.nil k)
-    · exact Rows.sorted_append_singleton hsorted hlt
-    · exact Rows.allLt_append_singleton (Rows.allLt_mono hak hlt) h
-    · intro p hp
-      simp only [List.mem_singleton] at hp
-      subst hp
-      exact ⟨hrow, Int.le_refl _⟩
-  · have hk : k = a := by omega
-    subst hk
-    refine ⟨[], c.journal.outSeq, ?_, Chain.nil _, ?_, ?_, ?_⟩
-    · rw [if_neg h]; simp [withOut]
-    · simpa using hsorted
-    · simpa using hlt
-    · intro p hp; simp at hp
+  obtain ⟨pre, os, h1, h2, h3, h4, h5⟩ :=
+    gap_step_mid env sr J c a k c.journal.out [] hctx ha hak (by simp) (by simpa using hsorted) hlt
+      (by intro p hp; simp at hp) hno
+  exact ⟨pre, os, by simpa using h1, h2, by simpa using h3, h4, h5⟩
+
+/-! ### rows after EndSeqNo: back into the journal, unsent -/
+
+theorem resendLoop_tail (env : Env) (sr : Msg → Bool) (e : Int) :
+    ∀ (rs2 : Rows) (gfb gfe : Int) (c : Conn),
+      Rows.Sorted (c.journal.out ++ rs2) → (∀ p ∈ rs2, e < p.1 ∧ RowOK p.1 p.2) →
+      ∃ os : Int,
+        resendLoop env sr e (rs2.map (·.2)) gfb gfe c =
+          ⟨.ok (gfb, gfe), withOut c (c.journal.out ++ rs2) os, []⟩ := by
+  intro rs2
+  induction rs2 with
+  | nil =>
+    intro gfb gfe c _ _
+    exact ⟨c.journal.outSeq, by simp [resendLoop, withOut]⟩
+  | cons p rest ih =>
+    intro gfb gfe c hs hrows
+    obtain ⟨k, row⟩ := p
+    obtain ⟨hk, hrow⟩ := hrows (k, row) (by simp)
+    simp only at hk hrow
+    obtain ⟨v, hv34, hvk⟩ := hrow.seq
+    have hlt : Rows.AllLt k c.journal.out := fun q hq =>
+      Rows.sorted_append_lt hs q hq (k, row) (by simp)
+    have hpers : persistOutboundRow k row c =
+        ⟨.ok (), withOut c (c.journal.out ++ [(k, row)]) k, []⟩ := by
+      simp [persistOutboundRow, M.bind_apply, Journal.persist, Rows.insert_append k row _ hlt, withOut]
+    have hs' : Rows.Sorted ((withOut c (c.journal.out ++ [(k, row)]) k).journal.out ++ rest) := by
+      simpa [List.append_assoc] using hs
+    obtain ⟨os, e2⟩ := ih gfb gfe (withOut c (c.journal.out ++ [(k, row)]) k) hs'
+      (fun q hq => hrows q (by simp [hq]))
+    refine ⟨os, ?_⟩
+    simp only [List.map_cons]
+    rw [resendLoop]
+    simp only [M.bind_apply, Msg.get, hv34, M.liftE_apply, M.int_apply_of hvk, if_true, hpers,
+      e2, gt_iff_lt, hk]
+    simp [List.append_assoc]
 
 /-! ### the loop -/
 
-theorem resendLoop_spec (env : Env) (sr : Msg → Bool) (J : Rows) (hJ : Rows.Sorted J) (hi : Int) :
-    ∀ (rs : Rows) (gfb gfe : Int) (c : Conn),
+theorem resendLoop_spec (env : Env) (sr : Msg → Bool) (J : Rows) (hJ : Rows.Sorted J) (hi e : Int)
+    (rs2 : Rows) (hrs2 : ∀ p ∈ rs2, e < p.1 ∧ RowOK p.1 p.2) :
+    ∀ (rs1 : Rows) (gfb gfe : Int) (c : Conn),
       LoopCtx env c → 0 ≤ gfb → gfb ≤ hi → gfe ≤ hi →
       Rows.Sorted c.journal.out → Rows.AllLt gfb c.journal.out →
-      Rows.Sorted rs → (∀ p ∈ rs, gfb ≤ p.1 ∧ p.1 < hi ∧ p ∈ J ∧ RowOK p.1 p.2) →
-      (∀ n row, gfb ≤ n → n < hi → (n, row) ∈ J → Replayable sr row → (n, row) ∈ rs) →
+      Rows.Sorted (rs1 ++ rs2) →
+      (∀ p ∈ rs1, gfb ≤ p.1 ∧ p.1 < hi ∧ p.1 ≤ e ∧ p ∈ J ∧ RowOK p.1 p.2) →
+      (∀ p ∈ rs2, gfb ≤ p.1) →
+      (∀ n row, gfb ≤ n → n < hi → (n, row) ∈ J → Replayable sr row → (n, row) ∈ rs1) →
       ∃ (sent : Rows) (gfb' gfe' os : Int),
-        resendLoop env sr (rs.map (·.2)) gfb gfe c =
-          ⟨.ok (gfb', gfe'), withOut c (c.journal.out ++ sent) os,
+        resendLoop env sr e ((rs1 ++ rs2).map (·.2)) gfb gfe c =
+          ⟨.ok (gfb', gfe'), withOut c (c.journal.out ++ sent ++ rs2) os,
             sent.map fun p => Effect.write p.2⟩ ∧
         Chain c.sess J sr gfb gfb' (sent.map (·.2)) ∧ gfb' ≤ hi ∧ gfe' ≤ hi ∧
-        Rows.Sorted (c.journal.out ++ sent) ∧ Rows.AllLt gfb' (c.journal.out ++ sent) ∧
-        (∀ p ∈ sent, RowOK p.1 p.2 ∧ gfb ≤ p.1) ∧
+        Rows.Sorted (c.journal.out ++ sent ++ rs2) ∧ Rows.AllLt gfb' (c.journal.out ++ sent) ∧
+        (∀ p ∈ sent, RowOK p.1 p.2 ∧ gfb ≤ p.1) ∧ (∀ p ∈ rs2, gfb' ≤ p.1) ∧
         (∀ n row, gfb' ≤ n → n < hi → (n, row) ∈ J → ¬ Replayable sr row) := by
-  intro rs
-  induction rs with
+  intro rs1
+  induction rs1 with
   | nil =>
-    intro gfb gfe c hctx h0 hb he hsorted hlt _ _ hacc
-    refine ⟨[], gfb, gfe, c.journal.outSeq, ?_, Chain.nil _, hb, he, by simpa using hsorted,
-      by simpa using hlt, by intro p hp; simp at hp, ?_⟩
-    · simp [resendLoop, withOut]
+    intro gfb gfe c hctx h0 hb he hsorted hlt hs2 _ hge2 hacc
+    have hs : Rows.Sorted (c.journal.out ++ rs2) :=
+      Rows.sorted_append hsorted (by simpa using hs2)
+        (fun p hp q hq => by have := hlt p hp; have := hge2 q hq; omega)
+    obtain ⟨os, e1⟩ := resendLoop_tail env sr e rs2 gfb gfe c hs hrs2
+    refine ⟨[], gfb, gfe, os, ?_, Chain.nil _, hb, he, by simpa using hs, by simpa using hlt,
+      by intro p hp; simp at hp, hge2, ?_⟩
+    · simpa using e1
     · intro n row h1 h2 h3 h4
       have := hacc n row h1 h2 h3 h4
       simp at this
   | cons p rest ih =>
-    intro gfb gfe c hctx h0 hb he hsorted hlt hrs hrows hacc
+    intro gfb gfe c hctx h0 hb he hsorted hlt hrs hrows hge2 hacc
     obtain ⟨k, row⟩ := p
-    obtain ⟨hk1, hk2, hkJ, hrow⟩ := hrows (k, row) (by simp)
-    simp only at hk1 hk2 hrow
-    have hrs' := List.pairwise_cons.mp hrs
+    obtain ⟨hk1, hk2, hke, hkJ, hrow⟩ := hrows (k, row) (by simp)
+    simp only at hk1 hk2 hke hrow
+    have hrs' := List.pairwise_cons.mp (by simpa using hrs : Rows.Sorted ((k, row) :: (rest ++ rs2)))
     obtain ⟨v, hv34, hvk⟩ := hrow.seq
-    have hrest : ∀ q ∈ rest, k + 1 ≤ q.1 ∧ q.1 < hi ∧ q ∈ J ∧ RowOK q.1 q.2 := by
+    have hrest : ∀ q ∈ rest, k + 1 ≤ q.1 ∧ q.1 < hi ∧ q.1 ≤ e ∧ q ∈ J ∧ RowOK q.1 q.2 := by
       intro q hq
-      obtain ⟨_, b2, b3, b4⟩ := hrows q (by simp [hq])
-      have := hrs'.1 q hq
+      obtain ⟨_, b2, b3, b4, b5⟩ := hrows q (by simp [hq])
+      have := hrs'.1 q (List.mem_append.mpr (Or.inl hq))
       simp only at this
-      exact ⟨by omega, b2, b3, b4⟩
-    -- the common prefix of the loop body
-    have hhead : ∀ (f : Int → String → M (Int × Int)),
+      exact ⟨by omega, b2, b3, b4, b5⟩
+    have hge2' : ∀ q ∈ rs2, k + 1 ≤ q.1 := by
+      intro q hq
+      have := hrs'.1 q (List.mem_append.mpr (Or.inr hq))
+      simp only at this
+      omega
+    -- the common prefix of the loop body: the row's number, not above EndSeqNo, its type
+    have hhead : ∀ (f : Int → String → M (Int × Int)) (g : Int → M (Int × Int)),
         (do let v ← M.liftE (row.get tMsgSeqNum)
             let n ← M.int v
-            let ty ← M.liftE (row.get tMsgType)
-            f n ty) c = f k row.mtype c := by
-      intro f
-      simp [M.bind_apply, Msg.get, hv34, hrow.tag35, M.int, hvk]
-    simp only [List.map_cons]
-    rw [resendLoop, hhead]
+            if n > e then g n
+            else do
+              let ty ← M.liftE (row.get tMsgType)
+              f n ty) c = f k row.mtype c := by
+      intro f g
+      have : ¬ k > e := by omega
+      simp [M.bind_apply, Msg.get, hv34, hrow.tag35, M.int, hvk, this]
+    simp only [List.cons_append, List.map_cons]
+    rw [resendLoop]
     by_cases hrep : Replayable sr row
     · -- replayed (after an optional gap fill)
       obtain ⟨hnr, hsr⟩ := hrep
       have hcond : (ConnEnum.noReplay.contains row.mtype || !sr row) = false := by
         rw [hnr, hsr]; rfl
-      simp only [hcond, Bool.false_eq_true, if_false]
       have hno : ∀ n row', gfb ≤ n → n < k → J.find n = some row' → ¬ Replayable sr row' := by
         intro n row' h1 h2 h3 h4
         have hm := hacc n row' h1 (by omega) ((Rows.find_eq_some_iff hJ _ _).mp h3) h4
         simp only [List.mem_cons, Prod.mk.injEq] at hm
         rcases hm with ⟨hm, _⟩ | hm
         · omega
-        · have := hrs'.1 _ hm; simp at this; omega
+        · have := (hrest _ hm).1; simp at this; omega
       obtain ⟨pre, os1, e1, ch1, so1, lt1, ok1⟩ := gap_step env sr J c gfb k hctx h0 hk1 hsorted hlt hno
       have hctx1 := hctx.withOut (c.journal.out ++ pre) os1
       have hk0 : 0 ≤ k := by omega
@@ -205,9 +279,9 @@ theorem resendLoop_spec (env : Env) (sr : Msg → Bool) (J : Rows) (hJ : Rows.So
       have lt2 : Rows.AllLt (k + 1)
           (c.journal.out ++ pre ++ [(k, buildFrame c.sess env.stamp (replayMsg row) k)]) :=
         Rows.allLt_append_singleton (Rows.allLt_mono (by omega) lt1) (by omega)
-      obtain ⟨sent, gfb', gfe', os, e3, ch3, b1, b2, so3, lt3, ok3, no3⟩ :=
+      obtain ⟨sent, gfb', gfe', os, e3, ch3, b1, b2, so3, lt3, ok3, ge3, no3⟩ :=
         ih (k + 1) gfe _ hctx2 (by omega) (by omega) he (by simpa using so2) (by simpa using lt2)
-          hrs'.2 hrest
+          hrs'.2 hrest hge2'
           (by
             intro n row' h1 h2 h3 h4
             have hm := hacc n row' (by omega) h2 h3 h4
@@ -217,11 +291,13 @@ theorem resendLoop_spec (env : Env) (sr : Msg → Bool) (J : Rows) (hJ : Rows.So
             · exact hm)
       simp only [withOut_out, withOut_sess, withOut_withOut] at e3 ch3 so3 lt3
       refine ⟨pre ++ [(k, buildFrame c.sess env.stamp (replayMsg row) k)] ++ sent, gfb', gfe', os,
-        ?_, ?_, b1, b2, ?_, ?_, ?_, no3⟩
+        ?_, ?_, b1, b2, ?_, ?_, ?_, ge3, no3⟩
       · have hsplit : ∀ (F : M (Int × Int)),
             (if gfb < k then (do sendMsg env (gapFillMsg gfb k); F) else F) c =
               ((if gfb < k then sendMsg env (gapFillMsg gfb k) else pure ()) >>= fun _ => F) c := by
           intro F; split <;> rfl
+        rw [hhead]
+        simp only [hcond, Bool.false_eq_true, if_false]
         rw [hsplit, M.bind_ok e1, M.bind_apply]
         simp only [prepareReplay_ok hrow, M.liftE_apply, M.bind_ok e2, e3]
         simp [List.append_assoc]
@@ -243,13 +319,13 @@ theorem resendLoop_spec (env : Env) (sr : Msg → Bool) (J : Rows) (hJ : Rows.So
       have hcond : (ConnEnum.noReplay.contains row.mtype || !sr row) = true := by
         unfold Replayable at hrep
         cases h1 : ConnEnum.noReplay.contains row.mtype <;> cases h2 : sr row <;> simp_all
-      simp only [hcond, if_true]
-      obtain ⟨sent, gfb', gfe', os, e3, ch3, b1, b2, so3, lt3, ok3, no3⟩ :=
+      obtain ⟨sent, gfb', gfe', os, e3, ch3, b1, b2, so3, lt3, ok3, ge3, no3⟩ :=
         ih gfb (k + 1) c hctx h0 hb (by omega) hsorted hlt hrs'.2
           (by
             intro q hq
-            obtain ⟨c1, c2, c3, c4⟩ := hrest q hq
-            exact ⟨by omega, c2, c3, c4⟩)
+            obtain ⟨c1, c2, c3, c4, c5⟩ := hrest q hq
+            exact ⟨by omega, c2, c3, c4, c5⟩)
+          hge2
           (by
             intro n row' h1 h2 h3 h4
             have hm := hacc n row' h1 h2 h3 h4
@@ -257,6 +333,9 @@ theorem resendLoop_spec (env : Env) (sr : Msg → Bool) (J : Rows) (hJ : Rows.So
             rcases hm with ⟨_, hm⟩ | hm
             · subst hm; exact absurd h4 hrep
             · exact hm)
-      exact ⟨sent, gfb', gfe', os, e3, ch3, b1, b2, so3, lt3, ok3, no3⟩
+      refine ⟨sent, gfb', gfe', os, ?_, ch3, b1, b2, so3, lt3, ok3, ge3, no3⟩
+      rw [hhead]
+      simp only [hcond, if_true]
+      exact e3
 
 end AsyncFix.Session.C06
